@@ -2,7 +2,7 @@
   The ghost data of the structural classes (mutual structural recursion over the machines) and the compositional
   lemmas for kvp / fixed.
 -/
-import GtModel.Proofs.LazyDefs
+import GtModel.Proofs.LazyDefsMs
 
 namespace GtModel.Lazy
 
@@ -16,7 +16,7 @@ def finG (a : Ghost) : M → Nat
   | .fixed _ subs tail => finL a subs + tailCost tail
   | .ed _ s cells => edFinOf s (finLL a cells)
   | .coll _ _ p q => finL a q + finL a p
-  | .ms l s k w e => a.fin (.ms l s k w e)
+  | .ms _ s k w e => (w.assign.map (finAt (finLL a e))).sum + finL a k + extraOf s w w.assign
 def finL (a : Ghost) : List M → Nat
   | [] => 0
   | m :: ms => finG a m + finL a ms
@@ -42,10 +42,21 @@ def viewG (a : Ghost) : M → Iv
       | none =>
         if s.iterDone then ⟨(viewL a q).lo, Nat.min s.ub0 (viewL a q).hi⟩
         else ⟨(viewL a q).lo, Nat.min s.ub0 (s.ub0 - decL a q s.inits)⟩
-  | .ms l s k w e => a.view (.ms l s k w e)
+  | .ms _ s k w e =>
+      let b1 : Iv := ⟨(wmViewV w (viewLL a e)).lo + (viewL a k).lo, (wmViewV w (viewLL a e)).hi + (viewL a k).hi⟩
+      match leftIv s w with
+      | some r => b1.add r
+      | none => b1
 def viewL (a : Ghost) : List M → Iv
   | [] => ⟨0, 0⟩
   | m :: ms => (viewG a m).add (viewL a ms)
+def viewRow (a : Ghost) : List M → List Iv
+  | [] => []
+  | m :: ms => viewG a m :: viewRow a ms
+/-- the matrix of the edges' intervals -/
+def viewLL (a : Ghost) : List (List M) → List (List Iv)
+  | [] => []
+  | r :: rs => viewRow a r :: viewLL a rs
 def decL (a : Ghost) : List M → List Nat → Nat
   | [], _ => 0
   | m :: ms, is => (is.headD 0 - (viewG a m).hi) + decL a ms is.tail
@@ -62,7 +73,8 @@ def muG (a : Ghost) : M → Nat
   | .coll l s p q =>
       muL a q + muL a p + p.length + (if s.iterDone then 0 else 1)
         + ((viewG a (.coll l s p q)).hi - (viewG a (.coll l s p q)).lo)
-  | .ms l s k w e => a.μ (.ms l s k w e)
+  | .ms l s k w e =>
+      muL a k + muLL2 a e + wmFlags w + ((viewG a (.ms l s k w e)).hi - (viewG a (.ms l s k w e)).lo)
 def muL (a : Ghost) : List M → Nat
   | [] => 0
   | m :: ms => muG a m + muL a ms
@@ -89,7 +101,14 @@ def scriptG (a : Ghost) : M → DScript
           ++ matchesFrom (s.flen - s.suf) (s.tlen - s.suf) s.suf)
   | .coll l _ p q =>
       .mk l.kind l.fi l.ti (Iv.point (finL a q + finL a p)) (scriptL a q ++ scriptL a p)
-  | .ms l s k w e => a.script (.ms l s k w e)
+  | .ms l s k w e =>
+      .mk l.kind l.fi l.ti
+        (Iv.point ((w.assign.map (finAt (finLL a e))).sum + finL a k + extraOf s w w.assign))
+        (s.nMatch.map DScript.ofScript ++ scriptL a k ++ w.assign.map (scrAt (scriptLL a e))
+          ++ ((unmatched w.nf (w.assign.map (·.1))).map fun x =>
+              DScript.mk .remove (.at (s.remIdx.getD x 0)) .none (Iv.point (s.remCosts.getD x 0)) [])
+          ++ ((unmatched w.nt (w.assign.map (·.2))).map fun x =>
+              DScript.mk .insert (.at (s.insIdx.getD x 0)) .none (Iv.point (s.insCosts.getD x 0)) []))
 def scriptL (a : Ghost) : List M → List DScript
   | [] => []
   | m :: ms => scriptG a m :: scriptL a ms
@@ -118,7 +137,12 @@ def invG (a : Ghost) (F : Nat) : M → Prop
         (∀ c, s.cost = some c → s.iterDone = true ∧
             c = ⟨(viewL a q).lo, Nat.min s.ub0 (viewL a q).hi⟩ ∧ c.lo = c.hi) ∧
         (p ≠ [] ∨ q ≠ [])
-  | .ms l s k w e => a.I (.ms l s k w e)
+  | .ms _ s k w e =>
+      wmFlags w + muLL2 a e < F ∧ invL a F k ∧ invLL2 a F e ∧ MShape e w.nf w.nt ∧ AssignOK w ∧
+        (∀ pairs, w.mtch = some pairs → pairs = w.assign) ∧
+        (∀ b, w.memo = some b → b = Iv.point ((w.assign.map (finAt (finLL a e))).sum) ∧
+          ∀ p ∈ w.assign, (ivAt (viewLL a e) p).lo = (ivAt (viewLL a e) p).hi) ∧
+        s.remCosts.length = w.nf ∧ s.insCosts.length = w.nt
 def invL (a : Ghost) (F : Nat) : List M → Prop
   | [] => True
   | m :: ms => invG a F m ∧ invL a F ms
@@ -135,7 +159,7 @@ def setG (a : Ghost) : M → Prop
   | .fixed _ subs _ => setL a subs
   | .ed _ s _ => edComplete s = true → s.cache.isSome = true
   | .coll _ _ _ _ => True
-  | .ms l s k w e => a.Q (.ms l s k w e)
+  | .ms _ _ k _ _ => setL a k
 def setL (a : Ghost) : List M → Prop
   | [] => True
   | m :: ms => setG a m ∧ setL a ms
@@ -150,7 +174,7 @@ def height : M → Nat
   | .fixed _ subs _ => heightL subs + 1
   | .ed _ _ cells => heightLL cells + 1
   | .coll _ _ p q => Nat.max (heightL q) (heightL p) + 1
-  | .ms _ _ _ _ _ => 1
+  | .ms _ _ k _ e => Nat.max (heightL k) (heightLL e) + 1
 def heightL : List M → Nat
   | [] => 0
   | m :: ms => Nat.max (height m) (heightL ms)
@@ -159,8 +183,9 @@ def heightLL : List (List M) → Nat
   | r :: rs => Nat.max (heightL r) (heightLL rs)
 end
 
+/-- no machine class is left abstract -/
 def isAtom : M → Bool
-  | .ms .. => true | _ => false
+  | _ => false
 
 /-- the ghost of all machines of structural height ≤ n over the atoms `a` -/
 def G (a : Ghost) (F n : Nat) : Ghost :=
